@@ -39,7 +39,22 @@ func ResultStatus() check.Family {
 	return check.Family{Name: "l2r-status", Cases: spec.L2ResultStatus()}
 }
 
+// PayloadValidation is keyword x position x location x requiredness on the request side.
+func PayloadValidation(thorough bool) check.Family {
+	return check.Family{Name: "val-p-" + tierName(thorough), Cases: spec.L1Validation("payload", thorough)}
+}
+
+// ResultValidation is the same on the response side.
+func ResultValidation(thorough bool) check.Family {
+	return check.Family{Name: "val-r-" + tierName(thorough), Cases: spec.L1Validation("result", thorough)}
+}
+
+// Errors is the declared / undeclared error family.
+func Errors() check.Family {
+	return check.Family{Name: "l2-errors", Cases: spec.L2Errors(), PerService: 4}
+}
+
 // All lists every family (C01, C07, C09 run over all of them).
 func All(thorough bool) []check.Family {
-	return []check.Family{PayloadSingle(), PayloadPair(thorough), ResultSingle(), ResultPair(thorough), ResultStatus()}
+	return []check.Family{PayloadSingle(), PayloadPair(thorough), ResultSingle(), ResultPair(thorough), ResultStatus(), PayloadValidation(thorough), ResultValidation(thorough), Errors()}
 }
